@@ -212,7 +212,7 @@ def interpret_as_string(value: Any) -> str:
     return str(value)
 
 
-old_string_pat = re.compile(r"'(?P<value>.+)'")
+old_string_pat = re.compile(r"'(?P<value>.*)'")
 
 
 def interpret_as_string_old(value: str) -> str:
